@@ -153,6 +153,11 @@ class Summariser:
     # ---------------------------------------------------------------- ports
     def port_key(self, e, env):
         """AST expression -> port key, or None when it is not a wire of self"""
+        if isinstance(e, ast.IfExp):
+            a, b = self.port_key(e.body, env), self.port_key(e.orelse, env)
+            if a is not None and b is not None:
+                return ('pite', self.expr(e.test, env), a, b)
+            return None
         if isinstance(e, ast.Attribute) and isinstance(e.value, ast.Name) and e.value.id == self.SN:
             if e.attr in self.ports and not self.ports[e.attr][2] and not self.ports[e.attr][0].startswith('iface'):
                 return ('p', e.attr)
@@ -169,6 +174,11 @@ class Summariser:
                 pk = ('pe', pk[1], c(pk[2]))
             return pk
         return None
+
+    def wire_read(self, kind, pk):
+        if pk[0] == 'pite':
+            return ite(pk[1], self.wire_read(kind, pk[2]), self.wire_read(kind, pk[3]))
+        return (kind, pk)
 
     # ---------------------------------------------------------------- expressions
     def expr(self, e, env):
@@ -267,9 +277,9 @@ class Summariser:
             pk = self.port_key(recv, env)
             if pk is not None:
                 if f.attr == 'get' and not e.args:
-                    return ('get', pk)
+                    return self.wire_read('get', pk)
                 if f.attr == 'getWidth' and not e.args:
-                    return ('w', pk)
+                    return self.wire_read('w', pk)
                 raise NotSummarisable('wire method %s in value position' % f.attr)
             if f.attr == 'get' and not e.args and isinstance(recv, ast.Attribute) and isinstance(recv.value, ast.Name) and recv.value.id == self.SN:
                 # self.<undefined>.get(): attribute that is not a port of the class
@@ -411,7 +421,7 @@ class Summariser:
     def assign(self, t, value, env):
         if isinstance(t, ast.Name):
             pk = None
-            if isinstance(value, (ast.Attribute, ast.Subscript, ast.Name)):
+            if isinstance(value, (ast.Attribute, ast.Subscript, ast.Name, ast.IfExp)):
                 pk = self.port_key(value, env)
             if pk is not None:
                 env.loc[t.id] = ('wire', pk)
@@ -443,7 +453,17 @@ class Summariser:
             pk = self.port_key(f.value, env)
             if pk is not None and f.attr in ('put', 'prepare') and len(v.args) == 1:
                 val = self.expr(v.args[0], env)
-                (env.puts if f.attr == 'put' else env.prepares)[pk] = val
+                d = env.puts if f.attr == 'put' else env.prepares
+
+                def write(pk, val, guard):
+                    if pk[0] == 'pite':
+                        write(pk[2], val, g_and(guard, pk[1]))
+                        write(pk[3], val, g_and(guard, neg(pk[1])))
+                    elif guard == c(True):
+                        d[pk] = val
+                    else:
+                        d[pk] = ite(guard, val, d.get(pk, HOLD))
+                write(pk, val, c(True))
                 return env
             if pk is not None:
                 raise NotSummarisable('wire method %s as a statement' % f.attr)
